@@ -20,10 +20,12 @@ empty diff (`Left = Right`) `Unified` writes nothing and `ReadUnified("")` answe
 
 Proved here: the token layer (`lex_print_lines`, `lex_print_number`, `lex_print_range`,
 `lex_print_urange`, `lex_print_command`), `normal_roundtrip` (full), the general form of F5 on
-ranges, the two witnesses, `C14_current`.  NOT proved (statements kept below as comments, tied
-only by the correspondence streams, which evaluate exactly these statements on every generated
-input): `unified_roundtrip_partial`, `apply_normal`, `apply_context`, `apply_unified_partial`,
-header names / timestamps.
+ranges, the two witnesses, `C14_current`.  The other C14 theorems are in their own modules:
+`Props/C14u.lean` (`unified_roundtrip_partial`: ReadUnified ∘ Unified incl. header names and
+timestamps, under "no range of length 1"), `Props/C14g.lean` (`git_roundtrip_partial`:
+ReadGitPatch on git-style wrappers), `Props/C14a.lean` (`apply_normal_*`, `apply_context_*` — full,
+for `New` and for `New.AddContext(n).Unify()` — and `apply_unified_*_partial` under "no empty
+range").
 -/
 namespace MdsVerif.Props.C14
 open MdsVerif.Model.Edit MdsVerif.Model.Mdiff MdsVerif.Model.MdiffFmt MdsVerif.Proofs.MdiffFmt
@@ -203,32 +205,13 @@ theorem C14_current :
   · intro a b c d; simp [MdiffFmt.uniRStart] <;> omega
   · intro a b c d; simp [MdiffFmt.uniREnd] <;> omega
 
-/-! ## not proved (full statements; checked on every generated input by the streams `C14.*`)
+/-! ## statements that are false for the current sources (kept at full strength as comments)
 
-```
--- chunk for chunk, a Replace returning as its Drop and Copy halves, byte-identical rewrite
-theorem unified_roundtrip_partial (cs : List (Chunk Line)) (fi : Option FileInfo) (hcs : cs ≠ [])
-    (hok : ∀ c ∈ cs, (∀ e ∈ c.edits, EditOK e) ∧ 1 ≤ c.lstart ∧ c.lstart ≤ c.lend ∧ 1 ≤ c.rstart ∧ c.rstart ≤ c.rend)
-    (hnl : ∀ c ∈ cs, EditsNoNl c.edits)
-    (hno1 : ∀ c ∈ cs, c.lend - c.lstart ≠ 1 ∧ c.rend - c.rstart ≠ 1)      -- "no range of length 1" (F5)
-    (hfi : header names are newline- and tab-free; parseTime (formatTime t) = some t) :
-    readUnified parseTime (readLines (render (unified cs fi))) =
-      some ⟨fi with default names, cs.map fun c => { c with edits := regroup c.edits }⟩ ∧
-    render (unified (…parsed…)) = render (unified cs fi)
-  -- regroup: Replace X Y ↦ Drop X, Copy Y; adjacent edits of the same kind fused.
-  -- Without hno1 the statement is false: C14_F5_witness, unified_range_F5.
-theorem unified_roundtrip_full: the same without hno1, for spanOmitted lo = 1 (repaired reader).
-
-theorem apply_normal (L R : List Line) (hvalid : EditScript.Valid (editScript L R) L R) (n : Option Nat) :
-    DiffApply.applyNormal (normal (chunks of New, or of New.AddContext(n).Unify())) L = some R
-theorem apply_context: the same for `context … fi` and DiffApply.applyContext.
-theorem apply_unified_partial: the same for `unified … fi` and DiffApply.applyUnified under
-    ∀ c ∈ chunks, c.lstart < c.lend ∧ c.rstart < c.rend                      -- "no empty range" (F6)
-  -- Without it the statement is false: C14_F6_witness.
-theorem apply_unified_full: without that hypothesis, for uspanFst s e = if e = s then s - 1 else s.
-```
-All of these use `Props.C13.pipeline_ok` (chunks `AllOK`, ascending, `patch L = R`) for the
-structure of the chunks.
+`unified_roundtrip_full` (no "no range of length 1" hypothesis): see `Props/C14u.lean`; false by
+`C14_F5_witness`, true for a reader with `spanOmitted lo = 1`.
+`apply_unified_chunks` / `apply_unified_new` / `apply_unified_pipeline` (no "no empty range"
+hypothesis): see `Props/C14a.lean`; false by `C14_F6_witness`, true for
+`uspanFst s e = if e = s then s - 1 else s`.
 -/
 
 end MdsVerif.Props.C14
